@@ -1,0 +1,55 @@
+//go:build verif
+
+// Contracts for package server, read by /verif's goatvc (comment-only; no executable code).
+package server
+
+//@ objinv[C12.objinv C04.objinv C06.objinv C02.objinv C03.objinv C20.objinv C07.objinv] server.serverStream : self.ctx != nil && self.rw != nil && self.codec != nil
+//@ objinv[C12.objinv C04.objinv C06.objinv C02.objinv C03.objinv C20.objinv C07.objinv] server.serverStream : forall j Int :: 0 <= j && j < len(self.statsHandlers) ==> self.statsHandlers[j] != nil
+
+//@ lock server.serverStream.protected.Mutex guards protected.headers, protected.headersSent, protected.trailers, protected.trailersSent
+//@   inv[C06.trailers_imply_headers C04.trailers_imply_headers] self.protected.trailersSent ==> self.protected.headersSent
+
+//@ func server.(*serverStream).setHeader
+//@   nopanic[C12.nopanic C04.nopanic]
+//@   atcall[C06.header_only_shape C04.headers_on_wire] (types.RpcReadWriter).Write :
+//@     | arg2 != nil && arg2.Id == ss.id && arg2.Header != nil && arg2.Header.Method == ss.method && arg2.Header.Source == ss.src && arg2.Header.Destination == ss.dst
+//@     | && isKvOf(arg2.Header.Headers, ss.protected.headers) && arg2.Body == nil && arg2.Status == nil && arg2.Trailer == nil && arg2.Reset_ == nil && arg1 == ss.ctx
+//@   ensures[C06.no_header_after_sent C04.no_header_after_sent] atlock(ss.protected.headersSent) ==> result != nil && ncalls("(types.RpcReadWriter).Write") == old(ncalls("(types.RpcReadWriter).Write")) && ss.protected.headers == atlock(ss.protected.headers)
+//@   ensures[C06.header_once C04.header_once] ncalls("(types.RpcReadWriter).Write") <= old(ncalls("(types.RpcReadWriter).Write")) + 1
+//@   ensures[C04.set_header_keeps] !atlock(ss.protected.headersSent) && !send ==> result == nil && ncalls("(types.RpcReadWriter).Write") == old(ncalls("(types.RpcReadWriter).Write")) && !ss.protected.headersSent
+//@   ensures[C06.sent_iff_written C04.sent_iff_written] !atlock(ss.protected.headersSent) && send ==> (result == nil) == ss.protected.headersSent
+
+//@ func server.(*serverStream).SetTrailer
+//@   nopanic[C12.nopanic C04.nopanic]
+//@   ensures[C04.trailer_frozen_after_sent C06.trailer_frozen_after_sent] atlock(ss.protected.trailersSent) ==> ss.protected.trailers == atlock(ss.protected.trailers)
+
+//@ func server.(*serverStream).SendMsg
+//@   nopanic[C12.nopanic]
+//@   atcall[C06.message_shape C02.message_shape C04.headers_with_first_message] (types.RpcReadWriter).Write :
+//@     | arg2 != nil && arg2.Id == ss.id && arg2.Header != nil && arg2.Header.Method == ss.method && arg2.Header.Source == ss.src && arg2.Header.Destination == ss.dst
+//@     | && arg2.Body != nil && arg2.Body.Data == bsContent(body) && arg2.Status == nil && arg2.Trailer == nil && arg2.Reset_ == nil && arg1 == ss.ctx
+//@     | && (atlock(ss.protected.headersSent) ==> arg2.Header.Headers == nil) && (!atlock(ss.protected.headersSent) ==> isKvOf(arg2.Header.Headers, atlock(ss.protected.headers)))
+//@   atcall[C02.message_bytes] (google.golang.org/grpc/encoding.CodecV2).Marshal : arg1 == m
+//@   ensures[C06.message_once C02.message_once] ncalls("(types.RpcReadWriter).Write") <= old(ncalls("(types.RpcReadWriter).Write")) + 1
+//@   ensures[C02.send_ok_means_written] result == nil ==> ncalls("(types.RpcReadWriter).Write") == old(ncalls("(types.RpcReadWriter).Write")) + 1
+//@   ensures[C06.headers_marked_sent C04.headers_marked_sent] ncalls("(types.RpcReadWriter).Write") == old(ncalls("(types.RpcReadWriter).Write")) + 1 ==> ss.protected.headersSent
+
+//@ func server.(*serverStream).RecvMsg
+//@   nopanic[C12.nopanic]
+//@   atcall[C02.received_body_decoded] (google.golang.org/grpc/encoding.CodecV2).Unmarshal : bound("rpc") && rpc != nil && bufContent(arg1[0]) == ite(rpc.Body == nil, nil, rpc.Body.Data) && arg2 == m
+//@   ensures[C02.eof_iff_half_close_ok C03.eof_iff_ok] bound("rpc") && rpc != nil && rpc.Trailer != nil ==> (result == io.EOF) == (rpc.Status == nil || rpc.Status.Code == 0)
+//@   ensures[C03.client_status] bound("rpc") && rpc != nil && rpc.Trailer != nil && rpc.Status != nil && rpc.Status.Code != 0 ==> result != nil && result != io.EOF
+//@   ensures[C02.success_only_with_data C12.success_only_with_data] result == nil ==> bound("rpc") && rpc != nil && rpc.Trailer == nil && ncalls("(google.golang.org/grpc/encoding.CodecV2).Unmarshal") == old(ncalls("(google.golang.org/grpc/encoding.CodecV2).Unmarshal")) + 1
+
+//@ func server.(*serverStream).SendTrailer
+//@   nopanic[C12.nopanic]
+//@   atcall[C06.trailer_shape C03.trailer_status C04.trailers_on_wire] (types.RpcReadWriter).Write :
+//@     | arg2 != nil && arg2.Id == ss.id && arg2.Header != nil && arg2.Header.Method == ss.method && arg2.Header.Source == ss.src && arg2.Header.Destination == ss.dst
+//@     | && arg2.Body == nil && arg2.Status != nil && arg2.Trailer != nil && arg2.Reset_ == nil && arg1 == ss.ctx
+//@     | && isKvOf(arg2.Trailer.Metadata, ss.protected.trailers)
+//@     | && (atlock(ss.protected.headersSent) ==> arg2.Header.Headers == nil) && (!atlock(ss.protected.headersSent) ==> isKvOf(arg2.Header.Headers, atlock(ss.protected.headers)))
+//@     | && ((trErr == nil) == (arg2.Status.Code == 0))
+//@     | && (trErr != nil && isStatus(trErr) && stCode(trErr) != 0 ==> arg2.Status.Code == stCode(trErr) && arg2.Status.Message == stMsg(trErr) && arg2.Status.Details == stDetails(trErr))
+//@     | && (trErr != nil && !isStatus(trErr) ==> arg2.Status.Message == errText(trErr))
+//@   ensures[C06.trailer_once] atlock(ss.protected.trailersSent) ==> result != nil && ncalls("(types.RpcReadWriter).Write") == old(ncalls("(types.RpcReadWriter).Write"))
+//@   ensures[C06.trailer_always_attempted C02.trailer_always_attempted] !atlock(ss.protected.trailersSent) ==> ncalls("(types.RpcReadWriter).Write") == old(ncalls("(types.RpcReadWriter).Write")) + 1 && ss.protected.trailersSent && ss.protected.headersSent
